@@ -46,7 +46,7 @@ def run(ctx):
             _, cid, rest = line.rstrip("\n").split(" ", 2)
             specs[cid] = rest
     rc, out = sh("%s < %s" % (driver, ops), timeout=3000)
-    evals = skipped = judge_bad = 0
+    evals = skipped = judge_bad = capq_cmp = capq_bad = 0
     distinct = set()
     samples = []
     kinds = {}
@@ -86,6 +86,14 @@ def run(ctx):
             distinct.add(hashlib.sha1((skeleton + spec.split(" ")[1]).encode()).hexdigest())
         if len(samples) < 6 and evals % 211 == 1:
             samples.append({"case": cid, "query": qtext[:200], "result": kv})
+        if kv.get("capq", "ok") != "ok" and compiled:
+            capq_bad += 1
+            ctx.violation("corr", "capQItem (generated quantifier tables applied to the pattern) differs from Query::capture_quantifiers: " + kv["capq"][:200],
+                          {"case": cid, "spec": spec, "query": qtext, "result": kv,
+                           "correspondence": "TsVerif.C05.capQItem vs ts_query_capture_quantifier_for_id"},
+                          fingerprint={"corr": "capq"}, found_input=False)
+        if compiled:
+            capq_cmp += 1
         if kv["judge"] == "ok" or kv["judge"].startswith("ok "):
             continue
         judge_bad += 1
@@ -95,6 +103,7 @@ def run(ctx):
         ctx.violation("judge", "C05 %s: query %r — %s" % (kind, qtext[:160], kv["judge"][:200]),
                       {"case": cid, "spec": spec, "query": qtext, "result": kv},
                       fingerprint={"kind": kind, "optional": kv.get("optional", "-"), "lang": lang})
+    ctx.oblige("corr:capQItem=ts_query_capture_quantifier_for_id", capq_bad == 0, "%d of %d differ" % (capq_bad, capq_cmp))
     ctx.coverage.update({
         "evaluations": evals, "distinct_nontrivial": len(distinct),
         "rule": "one evaluation = one (language, tree, query): the real compile verdict and the real match stream compared with the "
@@ -104,9 +113,9 @@ def run(ctx):
                 "non-trivial := query has >= 2 steps and >= 1 match; distinct by hash of (query skeleton with capture names erased, document)",
         "samples": samples, "distribution": dist, "failure_kinds": kinds, "skipped": skipped,
         "explorer_summary": exp_summary,
-        "correspondence": {"compared": evals, "equal": evals - judge_bad},
+        "correspondence": {"compared": evals + capq_cmp, "equal": evals - judge_bad + capq_cmp - capq_bad, "capture_quantifier_tables": {"compared": capq_cmp, "equal": capq_cmp - capq_bad}},
         "judge": {"evaluated": evals, "passed": evals - judge_bad},
-        "impl_vs_judge_failures": judge_bad, "model_vs_impl_disagreements": 0,
+        "impl_vs_judge_failures": judge_bad, "model_vs_impl_disagreements": capq_bad,
     })
     ctx.notes.append("spec-level property: the model IS the semantics, so a model/implementation difference is an implementation-vs-judge failure; "
                      "model repairs made while building are listed in notes/C05.md")
